@@ -24,7 +24,10 @@ RULE = ('fixed corpus of boundary scripts (each class alone, RHS-then-LHS, every
         'different roles and offsets) x random options x span lengths around LAGS+LEADS; malformed stream = C01-grammar scripts '
         'and their mutations.  Non-trivial = accepted with >= 2 classes or a lag/lead or a non-default option, or rejected by a '
         'symbol conflict / double definition; distinct by hash of the case.  Spans of seven kinds (list, range, NumPy array, strings, '
-        'pandas PeriodIndex / DatetimeIndex / Index): positions and labels of the default range and of solve().')
+        'pandas PeriodIndex / DatetimeIndex / Index): positions and labels of the default range and of solve().  HISTORIES: 2-4 scripts '
+        'parsed and built one after the other in one process (a side text reused in the other role, a name called as a function in one '
+        'script and used as a variable in another, both orders, random scripts over one pool rendered without blanks); every step is '
+        'compared with the model, judged by the oracle, and (every third history) with the same step run alone in a pristine process.')
 TRUSTED = ['extraction of the parser and class-building models to OCaml (ExtrOcamlBasic + ExtrOcamlString only) and coq/Extract/Build/driver.ml',
            'harness/build_common.py, harness/parser_common.py (encoders, driver runner, script generators)']
 ASSUMPTIONS = ['scripts are Latin-1 strings; str.format fields outside the modelled fragment are skipped (PUnmodelled)',
@@ -153,7 +156,7 @@ def make_span(kind, n):
 
 
 # --------------------------------------------------------------------------- implementation
-def impl(case):
+def impl_one(case):
     import fsic
     o = {}
     try:
@@ -202,12 +205,78 @@ def impl(case):
     return o
 
 
+def _fresh_steps(steps):
+    """every step alone, each in a process in which nothing has been parsed yet: one helper process imports fsic, then
+    forks a child per step (the children inherit pristine module state)"""
+    import json as _json
+    import os
+    import subprocess
+    import sys
+    code = ('import sys, os, json\n'
+            'sys.path.insert(0, %r)\n'
+            'import fsic\n'
+            'from props import C03 as m\n'
+            'steps = json.loads(sys.stdin.read())\n'
+            'out = []\n'
+            'for st in steps:\n'
+            '    r, w = os.pipe()\n'
+            '    pid = os.fork()\n'
+            '    if pid == 0:\n'
+            '        os.close(r)\n'
+            '        try:\n'
+            '            data = json.dumps(m.impl_one(st))\n'
+            '        except BaseException as e:\n'
+            '            data = json.dumps({"crash": type(e).__name__})\n'
+            '        os.write(w, data.encode())\n'
+            '        os._exit(0)\n'
+            '    os.close(w)\n'
+            '    buf = b""\n'
+            '    while True:\n'
+            '        chunk = os.read(r, 65536)\n'
+            '        if not chunk:\n'
+            '            break\n'
+            '        buf += chunk\n'
+            '    os.close(r)\n'
+            '    os.waitpid(pid, 0)\n'
+            '    out.append(json.loads(buf.decode()))\n'
+            'print(json.dumps(out))\n') % os.path.dirname(os.path.dirname(os.path.abspath(__file__)))
+    p = subprocess.run([sys.executable, '-c', code], input=_json.dumps(steps), capture_output=True, text=True, timeout=50)
+    if p.returncode != 0:
+        return {'fresh_error': p.stderr[-300:]}
+    return _json.loads(p.stdout.strip().split('\n')[-1])
+
+
+def impl(case):
+    """a single script, or a HISTORY: several scripts parsed / built one after the other in this process (caches, module
+    state), each step also observed alone in a pristine process"""
+    if case.get('k') != 'history':
+        return impl_one(case)
+    steps = [impl_one(st) for st in case['steps']]
+    return {'steps': steps, 'fresh': _fresh_steps(case['steps']) if case.get('fresh') else None}
+
+
+def _flat(cases, obs):
+    """(case, observation, index of the top-level case) for single cases and for every step of a history"""
+    for i, (c, o) in enumerate(zip(cases, obs)):
+        if c.get('k') == 'history':
+            for st, so in zip(c['steps'], o['steps']):
+                yield st, so, i
+        else:
+            yield c, o, i
+
+
 # --------------------------------------------------------------------------- correspondence
 def _norm_idx(v):
     return v
 
 
 def correspond(cases, obs, tag, tier):
+    flat = list(_flat(cases, obs))
+    bad, errs = correspond_flat([f[0] for f in flat], [f[1] for f in flat])
+    return sorted({flat[j][2] for j in bad}), errs
+
+
+def correspond_flat(cases, obs):
     reqs = []
     for c in cases:
         src = 'P' + pc.hx(c['script'])
@@ -261,6 +330,8 @@ def correspond(cases, obs, tag, tier):
 
 
 def explain(case, obs):
+    if case.get('k') == 'history':
+        return [explain(st, so) for st, so in zip(case['steps'], obs['steps'])]
     src = 'P' + pc.hx(case['script'])
     ans, errs = bc.run_driver(['C %s %s %d' % (src, bc.enc_opts(bc.full_opts(case['opts'])), case['n']), 'Y %s' % src])
     return {'model': ans, 'errors': errs}
@@ -275,7 +346,7 @@ def feasible(n, lags, leads):
     return [t for t in range(n) if t - lags >= 0 and t + leads <= n - 1]
 
 
-def oracle(case, o):
+def oracle_one(case, o):
     out = []
     exp = case.get('expect')
     if exp is None and case.get('ast') is not None:
@@ -372,7 +443,28 @@ def oracle(case, o):
     return out
 
 
+def oracle(case, o):
+    if case.get('k') != 'history':
+        return oracle_one(case, o)
+    out = []
+    fresh = o.get('fresh')
+    for j, (st, so) in enumerate(zip(case['steps'], o['steps'])):
+        for f in oracle_one(st, so):
+            out.append({'sig': f['sig'], 'what': 'step %d of a history: %s' % (j, f['what'])})
+        # what a script yields must not depend on what was parsed or built before in the same process
+        if isinstance(fresh, list) and j < len(fresh) and fresh[j] != so:
+            keys = sorted(k for k in set(so) | set(fresh[j]) if so.get(k) != fresh[j].get(k))
+            out.append(_f('history', 'step-differs-from-fresh-process',
+                          'step %d (%r) gives another result after the earlier steps than in a fresh process (differs in %s)'
+                          % (j, st['script'][:60], ','.join(keys))))
+    if isinstance(fresh, dict):
+        out.append(_f('history', 'fresh-helper-failed', 'the fresh-process helper failed: %s' % fresh.get('fresh_error', '')[:200]))
+    return out
+
+
 def guard(case, o):
+    if case.get('k') == 'history':
+        return any(guard(st, so) for st, so in zip(case['steps'], o['steps']))
     exp = case.get('expect')
     if exp is None and case.get('ast') is not None:
         exp = expectation(case['ast'])
@@ -380,6 +472,8 @@ def guard(case, o):
 
 
 def nontrivial(case, o):
+    if case.get('k') == 'history':
+        return any(nontrivial(st, so) for st, so in zip(case['steps'], o['steps']))
     if 'parse_exc' in o:
         return o['parse_exc'] in ('SymbolError', 'ParserError') and case.get('ast') is not None
     if 'endo' not in o:
@@ -389,6 +483,8 @@ def nontrivial(case, o):
 
 
 def bucket(case, o):
+    if case.get('k') == 'history':
+        return 'history/%s/%d steps' % (case.get('hk', '?'), len(case['steps']))
     kind = 'ast' if case.get('ast') is not None else ('corpus' if case.get('expect') is not None else 'malformed')
     if 'parse_exc' in o:
         return '%s/rejected:%s' % (kind, o['parse_exc'])
@@ -403,6 +499,12 @@ def bucket(case, o):
 
 
 def shrink_candidates(case):
+    if case.get('k') == 'history':
+        n = len(case['steps'])
+        for i in range(n):                       # drop one step (keeping the order of the others)
+            if n > 1:
+                yield dict(case, steps=case['steps'][:i] + case['steps'][i + 1:])
+        return
     c = case
     if c.get('ast') and len(c['ast']) > 1:
         for i in range(len(c['ast'])):
@@ -430,6 +532,17 @@ def shrink_candidates(case):
         yield dict(c, solve=False)
     if c.get('span', 'list') != 'list':
         yield dict(c, span='list')
+
+
+def render_compact(ast):
+    """no blanks at all: the text of a side is exactly the text of its terms (so that side texts repeat across scripts)"""
+    lines = []
+    for lhs, rhs, ops in ast:
+        t = bc.render_term(rhs[0])
+        for op, x in zip(ops, rhs[1:]):
+            t += op + bc.render_term(x)
+        lines.append(bc.render_term(lhs, None, lhs=True) + '=' + t)
+    return '\n'.join(lines)
 
 
 # --------------------------------------------------------------------------- generator
@@ -554,6 +667,50 @@ def gen(rng, tier):
         solve = safe and 'lags' not in o and 'leads' not in o and is_safe(ast)
         cases.append({'script': script, 'ast': ast, 'expect': None, 'opts': o, 'n': _ns(rng, _need(exp, o)), 'solve': bool(solve),
                       'span': rng.choice(SPANS + ['list', 'list'])})
+    # histories: several scripts in ONE process, later ones reusing the side texts / names of earlier ones in another role
+    def step(ast, compact=True, opts=None):
+        ast = json.loads(json.dumps(ast))
+        script = render_compact(ast) if compact else bc.render_ast(ast, rng)
+        return {'script': script, 'ast': ast, 'expect': None, 'opts': opts or {}, 'n': rng.choice([3, 5, 8]), 'solve': False,
+                'span': rng.choice(['list', 'pandas_period', 'strings'])}
+
+    def hist(kind, steps):
+        # every third history is also replayed step by step in pristine processes (costs a Python start-up)
+        cases.append({'k': 'history', 'hk': kind, 'steps': steps, 'fresh': len(cases) % 3 == 0})
+
+    names = ['X', 'Y', 'Z', 'W', 'a', 'b']
+    for _ in range(150 if big else 14):
+        x, y, z, w = rng.sample(names, 4)
+        i = rng.choice([None, None, -1, 1, -2])
+        # the whole right-hand side text of one script is the whole left-hand side text of another, both orders
+        sA = [[['v', x, i], [['v', z, None]], []]]                        # x[i]=z
+        sB = [[['v', y, None], [['v', x, i]], []]]                        # y=x[i]
+        hist('side-reuse', [step(sA), step(sB)] if rng.random() < 0.5 else [step(sB), step(sA)])
+        hist('side-reuse', [step(sA), step(sB), step(sA)])
+        sC = [[['v', y, None], [['v', x, i], ['v', w, None]], ['+']], [['v', x, i], [['v', z, 1]], []]]
+        hist('side-reuse', [step(sB), step(sC), step(sA)])
+        # {p} / <e> written with the same text as an earlier variable side
+        sP = [[['v', y, None], [['p', x, None]], []]]
+        sV = [[['v', y, None], [['v', x, None]], []]]
+        hist('class-reuse', [step(sP), step(sV)] if rng.random() < 0.5 else [step(sV), step(sP)])
+    for _ in range(100 if big else 10):
+        f, x, y, z = rng.sample(['f', 'g', 'exp', 'log', 'k', 'X', 'Y', 'Z'], 4)
+        # the same name called as a function in one script and used as a variable in ANOTHER one, both orders
+        sA = [[['v', y, None], [['f', f, [['v', x, None]]]], []]]         # y=f(x)
+        sB = [[['v', z, None], [['v', f, rng.choice([None, -1])], ['n', '1']], ['+']]]   # z=f+1
+        for compact in (True, False):
+            hist('function-then-variable', [step(sA, compact), step(sB, compact)])
+            hist('variable-then-function', [step(sB, compact), step(sA, compact)])
+        hist('function-variable-function', [step(sA), step(sB), step(sA), step(sB, False)])
+    for _ in range(300 if big else 40):
+        # random scripts over one small pool, rendered compactly so that texts repeat across steps
+        pool_n = rng.choice([3, 4])
+        hs = []
+        st0 = rng.getstate()
+        for _k in range(rng.choice([2, 3, 4])):
+            ast = bc.gen_ast(rng, n_eq=rng.choice([1, 2, 3]), pool_size=pool_n, safe=rng.random() < 0.5)
+            hs.append(step(ast, compact=rng.random() < 0.7, opts=_opts(rng) if rng.random() < 0.3 else {}))
+        hist('random', hs)
     # malformed stream
     for _ in range(25000 if big else 1500):
         s = pc.gen_script(rng)
